@@ -27,7 +27,7 @@ type cmpCfg struct {
 }
 
 var cmpConfigs = []cmpCfg{
-	{hx.Mem, []string{"/r/a", "/r/b"}, nil, []string{"/q/out", "/r0x"}, [2]int{5, 7}},
+	{hx.Mem, []string{"/r/a", "/r/b"}, nil, []string{"/q/out", "/r0x"}, [2]int{6, 7}},
 	{hx.Mem, []string{"/r/a", "/r/a/b"}, []string{"/r/x"}, []string{"/r/x/k"}, [2]int{4, 5}},
 	{hx.Mem, []string{"/r/a", "/r/a/b"}, []string{"/r/a"}, nil, [2]int{4, 5}}, // the skipped prefix is a prefix of a data key
 	{hx.Badger, []string{"/r/a", "/r/b"}, nil, nil, [2]int{3, 3}},
@@ -67,6 +67,8 @@ type cmpWorld struct {
 	x      *mc.SeqOut
 	prop   string
 	record uint64 // expected stored compaction record (0 = none yet)
+	creqs  []int64 // every compaction request made so far (part of the canonical state: an
+	// implementation may remember requests, not only their effect)
 	inRange func(key string) bool
 }
 
@@ -158,6 +160,7 @@ func (w *cmpWorld) compact(rev int64) {
 		eff = committed
 	}
 	before := w.outsideDump()
+	w.creqs = append(w.creqs, int64(eff)-base)
 	resp, err := w.b.Compact(bg, req)
 	vrt.Quiesce()
 	if err != nil {
@@ -323,6 +326,9 @@ func (w *cmpWorld) canonKey() string {
 		}
 	}
 	fmt.Fprintf(&b, "|floor=%d|committed=%d|", int64(w.m.floor)-base, int64(w.b.GetCurrentRevision())-base)
+	if w.prop == "C08" {
+		fmt.Fprintf(&b, "requests=%v|", w.creqs)
+	}
 	for _, r := range w.dump() {
 		if r.Raw {
 			if r.Key == "/r/compact_key" && len(r.Val) == 8 {
